@@ -269,7 +269,6 @@ def run_lab(ctx, u, cases, plan_meta, opts_list, tag):
     regs = []
     usable = []
     tested = [s["name"] for s in u.svcs]
-    probe_ok = []
     for cid in cids:
         c = lab.cases[cid]
         if c.rc != 0:
@@ -311,7 +310,7 @@ def run_lab(ctx, u, cases, plan_meta, opts_list, tag):
                 obs = g2.problems[0][1]
         u.probe_obs[name] = obs
         if obs:
-            ctx.notes.append("C01 observation (not judged here): %s -> %s" % (pr["what"], obs))
+            ctx.notes.append("observation outside C08 (C01/C04 business, not judged here): %s -> %s" % (pr["what"], obs))
             vlib.log("probe %s (%s): %s" % (name, pr["what"], obs))
         else:
             vlib.log("probe %s (%s): compiles" % (name, pr["what"]))
@@ -323,7 +322,6 @@ def run_lab(ctx, u, cases, plan_meta, opts_list, tag):
     if not ok:
         # the generated packages build on their own: this is the driver's typed half not fitting the generated API
         raise vlib.MachineryError("driver build failed:\n" + bout[-4000:])
-    by = {s["name"]: s for s in u.svcs}
     scen = []
     meta = []
     for cid in usable:
